@@ -370,13 +370,28 @@ func (dp *DataProcessor) startWindowProcessing() {
 					// Channel closed, exit
 					return
 				}
-				dp.processWindowBatch(batch)
+				dp.processWindowBatchRecovered(batch)
 			case <-dp.stream.done:
 				// Stream stopped, exit
 				return
 			}
 		}
 	}()
+}
+
+// processWindowBatchRecovered runs processWindowBatch for one batch. A panic raised while that
+// batch is processed (a user function, an expression) is logged and costs that batch only: its
+// partial aggregation state is discarded and the goroutine keeps serving later batches.
+func (dp *DataProcessor) processWindowBatchRecovered(batch []types.Row) {
+	defer func() {
+		if r := recover(); r != nil {
+			dp.stream.log.Error("Window batch processing panic recovered: %v", r)
+			if dp.stream.aggregator != nil {
+				dp.stream.aggregator.Reset()
+			}
+		}
+	}()
+	dp.processWindowBatch(batch)
 }
 
 // processWindowBatch processes window batch data
